@@ -144,44 +144,6 @@ func vhDR(p vhProfile, key, constant []byte) []byte {
 	return out[:p.seedLen]
 }
 
-// RFC 3961 6.3.1 des3 random-to-key: 7 bytes -> 8 bytes with odd parity, weak keys corrected
-func vhDES3Expand(b []byte) []byte {
-	out := make([]byte, 8)
-	var last byte
-	for i := 0; i < 7; i++ {
-		out[i] = b[i] &^ 1
-		last |= (b[i] & 1) << uint(i+1)
-	}
-	out[7] = last
-	for i := range out {
-		// set the low bit so that the byte has odd parity
-		x := out[i] >> 1
-		x ^= x >> 4
-		x ^= x >> 2
-		x ^= x >> 1
-		out[i] = out[i]&^1 | (^x & 1)
-	}
-	if vhDESWeak(out) {
-		out[7] ^= 0xF0
-	}
-	return out
-}
-
-var vhWeakTable = [][8]byte{
-	{0x01, 0x01, 0x01, 0x01, 0x01, 0x01, 0x01, 0x01}, {0xFE, 0xFE, 0xFE, 0xFE, 0xFE, 0xFE, 0xFE, 0xFE}, {0x1F, 0x1F, 0x1F, 0x1F, 0x0E, 0x0E, 0x0E, 0x0E}, {0xE0, 0xE0, 0xE0, 0xE0, 0xF1, 0xF1, 0xF1, 0xF1},
-	{0x01, 0xFE, 0x01, 0xFE, 0x01, 0xFE, 0x01, 0xFE}, {0xFE, 0x01, 0xFE, 0x01, 0xFE, 0x01, 0xFE, 0x01}, {0x1F, 0xE0, 0x1F, 0xE0, 0x0E, 0xF1, 0x0E, 0xF1}, {0xE0, 0x1F, 0xE0, 0x1F, 0xF1, 0x0E, 0xF1, 0x0E},
-	{0x01, 0xE0, 0x01, 0xE0, 0x01, 0xF1, 0x01, 0xF1}, {0xE0, 0x01, 0xE0, 0x01, 0xF1, 0x01, 0xF1, 0x01}, {0x1F, 0xFE, 0x1F, 0xFE, 0x0E, 0xFE, 0x0E, 0xFE}, {0xFE, 0x1F, 0xFE, 0x1F, 0xFE, 0x0E, 0xFE, 0x0E},
-	{0x01, 0x1F, 0x01, 0x1F, 0x01, 0x0E, 0x01, 0x0E}, {0x1F, 0x01, 0x1F, 0x01, 0x0E, 0x01, 0x0E, 0x01}, {0xE0, 0xFE, 0xE0, 0xFE, 0xF1, 0xFE, 0xF1, 0xFE}, {0xFE, 0xE0, 0xFE, 0xE0, 0xFE, 0xF1, 0xFE, 0xF1},
-}
-
-func vhDESWeak(k []byte) bool {
-	weak := false
-	for _, w := range vhWeakTable {
-		weak = zzverif.Or(weak, zzverif.EqBytes(k, w[:]))
-	}
-	return weak
-}
-
 func vhRandomToKey(p vhProfile, r []byte) []byte {
 	if p.cipher == "des3" {
 		// summarised by one symbol on both sides in the message-level harnesses; that the library's
